@@ -164,7 +164,8 @@ fn spawn_from_files_once(conf: &Conf) -> Option<App> {
         },
     );
     std::fs::write(format!("{dir}/config.yaml"), yaml).expect("write config");
-    if !env_secret {
+    // ("yaml-no-secret": no secret anywhere - no cookie can be valid, under whatever key it was signed)
+    if !env_secret && conf.files != "yaml-no-secret" {
         std::fs::write(format!("{dir}/auth_secret"), SECRET).expect("write secret");
     }
     let exe = common::self_exe();
@@ -328,19 +329,25 @@ async fn cookie_cases(addr: SocketAddr, conf: &Conf, out: &Mutex<Vec<Viol>>) -> 
     } else {
         vec![("fresh", e - 2, configured, true), ("expired", e + 2, configured, false), ("other-secret", 0, "another-secret", false), ("very-old", e + 100_000, configured, false)]
     };
+    if conf.files == "yaml-no-secret" {
+        // the operator configured no secret: "only the configured secret validates them" leaves nothing that does
+        cases = vec![("no-secret-configured:signed-with-the-empty-key", 5, "", false), ("no-secret-configured:signed-with-some-key", 5, SECRET, false), ("no-secret-configured:signed-with-a-line-break", 5, "\n", false)];
+    }
     if configured == ENV_SECRET {
         // what a typed reading of the environment value would turn it into
         for other in ["42", "42.0", "+42", "0x2a"] {
             cases.push(("signed-with-a-number-the-secret-reads-as", e.min(5) - 1, other, false));
         }
     }
-    for part in SECRET_PARTS {
-        cases.push(("signed-with-a-part-of-the-secret", e.min(5) - 1, part, false));
+    if conf.files != "yaml-no-secret" {
+        for part in SECRET_PARTS {
+            cases.push(("signed-with-a-part-of-the-secret", e.min(5) - 1, part, false));
+        }
+        // a history: a genuine cookie is honoured, then its tag comes back in front of another body
+        cases.push(("genuine-before-replay", e.min(5) - 1, configured, true));
+        cases.push(("replayed-tag-other-body", e.min(5) - 1, configured, false));
     }
-    // a history: a genuine cookie is honoured, then its tag comes back in front of another body
-    cases.push(("genuine-before-replay", e.min(5) - 1, configured, true));
-    cases.push(("replayed-tag-other-body", e.min(5) - 1, configured, false));
-    if conf.timeout >= 4 && conf.expiry <= u32::MAX as u64 && conf.expiry >= 1 {
+    if conf.files != "yaml-no-secret" && conf.timeout >= 4 && conf.expiry <= u32::MAX as u64 && conf.expiry >= 1 {
         // valid when the connection starts (one second left), expired when the client finally presents it
         cases.push(("expires-during-stall", e - 1, configured, false));
     }
@@ -483,6 +490,10 @@ async fn later_frame_length_cases(addr: SocketAddr, conf: &Conf, out: &Mutex<Vec
                 }
             }
             let _ = c.send(&frame).await;
+            if which == "session-cookie" && !over {
+                // (a router that asked for both cookies at once goes on only when both answers are in)
+                let _ = c.send(&codec::sb_login_cookie_response("passage:authentication", None)).await;
+            }
             if which == "plugin-message" {
                 // what follows a tolerated plugin message: Client Information, then routing
                 let _ = c.send(&codec::sb_client_information("en_us")).await;
@@ -869,6 +880,7 @@ pub fn run(cli: Cli) -> ! {
             Conf { max_packet_length: 300, expiry: 1, timeout: 3, proxy: "v2".into(), big_status: false, files: "yaml".into() },
             Conf { max_packet_length: 10_000, expiry: 2, timeout: 2, proxy: String::new(), big_status: false, files: "yaml+env".into() },
             Conf { max_packet_length: 1_500, expiry: 60, timeout: 2, proxy: String::new(), big_status: false, files: "yaml+env-secret".into() },
+            Conf { max_packet_length: 1_400, expiry: 60, timeout: 2, proxy: String::new(), big_status: false, files: "yaml-no-secret".into() },
         ]
     } else {
         vec![
@@ -884,6 +896,7 @@ pub fn run(cli: Cli) -> ! {
             Conf { max_packet_length: 1_200, expiry: 3, timeout: 2, proxy: String::new(), big_status: false, files: "yaml".into() },
             Conf { max_packet_length: 2_000, expiry: 60, timeout: 1, proxy: "v1v2".into(), big_status: false, files: "yaml+env".into() },
             Conf { max_packet_length: 1_500, expiry: 60, timeout: 2, proxy: String::new(), big_status: false, files: "yaml+env-secret".into() },
+            Conf { max_packet_length: 1_400, expiry: 60, timeout: 2, proxy: String::new(), big_status: false, files: "yaml-no-secret".into() },
             // an expiry shorter than the timeout (a cookie may be older than the expiry and younger than the timeout)
             Conf { max_packet_length: 1_100, expiry: 2, timeout: 6, proxy: String::new(), big_status: false, files: "yaml".into() },
         ]
